@@ -52,7 +52,7 @@ theorem c05_step {w : Wiring} (hw : WellWired05 w) {c : MonCtx} {s s' : AState} 
     · rw [hstrm, ← hi.strm]; cases l <;> simp [next05]
     · -- stop requests in the mailbox were issued
       intro hpos
-      have hc := step_cnt isStopP (by simp [isStopP]) (by simp [isStopP]) (by simp [isStopP]) hs
+      have hc := step_cnt isStopP (by simp [isStopP]) (by simp [isStopP]) (by simp [isStopP]) (by simp [isStopP]) hs
       by_cases h0 : 0 < cntP isStopP s
       · exact hmono (hi.stopq h0)
       · have : 0 < pushN isStopP l := by omega
@@ -85,7 +85,7 @@ theorem c05_step {w : Wiring} (hw : WellWired05 w) {c : MonCtx} {s s' : AState} 
       · have hex' : l.isExit = false := by simpa using hex
         obtain ⟨ha, hrb⟩ := (step_phase_facts hs hex').1 halive
         have h0 := hi.rst ha
-        have hc := step_cnt isRestartP (by simp [isRestartP]) (by simp [isRestartP]) (by simp [isRestartP]) hs
+        have hc := step_cnt isRestartP (by simp [isRestartP]) (by simp [isRestartP]) (by simp [isRestartP]) (by simp [isRestartP]) hs
         rw [pushN_restart] at hc
         by_cases hst : l = .cbBegin .stopped
         · subst hst
